@@ -29,6 +29,9 @@
 (*                         printed text without grouping                   *)
 (*   "same_ignores_directives"  ... by their expression, whatever the      *)
 (*                         print directives                                *)
+(*   "lookup_cache_by_name"  within one template body a placeholder name   *)
+(*                         keeps meaning the node found for it first,      *)
+(*                         also in a later, different message              *)
 (*   "builtin_rule_wins"   the plural form is selected by the built-in     *)
 (*                         rule of the catalogue's locale instead of the   *)
 (*                         rule its Plural-Forms header declares           *)
@@ -311,6 +314,28 @@ POExpected(body, strategy, loc, env) ==
                 segs == POSegments(POMergeText(POFormBody(body, loc, i)), env) IN
             POCat(POOut(POMark(loc, i)), POCatAll(IF strategy = "rev" THEN POReverse(segs) ELSE segs))
 
+\* several (plural-free) messages in one template body: each is rendered on
+\* its own; the output is the concatenation, separated by sep
+RECURSIVE POPhNodesUpTo(_, _)
+POPhNodesUpTo(ms, i) == IF i = 0 THEN <<>> ELSE POPhNodesUpTo(ms, i - 1) \o POPhNodes(ms[i].body)
+
+PORenderSeqFrom(ms, i, strategy, rule, env, sep) ==
+  LET RECURSIVE go(_)
+      go(k) ==
+        IF k > Len(ms) THEN POOut("")
+        ELSE LET e == POExtract(ms[k])
+                 cm == POLoad(e, POTranslate(strategy, e, rule))
+                 phs == IF "lookup_cache_by_name" \in PODev THEN POPhNodesUpTo(ms, k) ELSE POPhNodes(ms[k].body) IN
+             POCat(POCat(POOut(IF k > 1 THEN sep ELSE ""), PORenderParts(phs, cm.parts, env, 0)), go(k + 1))
+  IN go(i)
+PORenderSeq(ms, strategy, rule, env, sep) == PORenderSeqFrom(ms, 1, strategy, rule, env, sep)
+
+RECURSIVE POExpectedSeq(_, _, _, _, _)
+POExpectedSeq(ms, strategy, rule, env, sep) ==
+  IF ms = <<>> THEN POOut("")
+  ELSE POCat(POExpected(ms[1].body, strategy, rule, env),
+             IF Len(ms) = 1 THEN POOut("") ELSE POCat(POOut(sep), POExpectedSeq(Tail(ms), strategy, rule, env, sep)))
+
 (***************************************************************************)
 (* C11 pools: coherent data (a, b maps; y, y_1 strings; n the number).     *)
 (* (Base name Y rather than X: the id key of a message is its placeholder  *)
@@ -372,6 +397,16 @@ POFamId(d) ==
   IF d.kind = "flat" THEN "F" \o MsgIxStr(d.ix)
   ELSE IF d.kind = "extra" THEN "X" \o ToString(d.i)
   ELSE "P" \o ToString(d.subj) \o "c" \o ToString(d.cs) \o ":" \o MsgIxStrs(d.cb) \o "d" \o MsgIxStr(d.db)
+
+\* sharding of the families over several TLC processes
+RECURSIVE POSumSeq(_)
+POSumSeq(q) == IF q = <<>> THEN 0 ELSE Head(q) + POSumSeq(Tail(q))
+RECURSIVE POSumSeqs(_)
+POSumSeqs(q) == IF q = <<>> THEN 0 ELSE POSumSeq(Head(q)) + POSumSeqs(Tail(q))
+POShardOf(d, nshards) ==
+  IF d.kind = "flat" THEN POSumSeq(d.ix) % nshards
+  ELSE IF d.kind = "extra" THEN d.i % nshards
+  ELSE (d.subj + d.cs + POSumSeqs(d.cb) + POSumSeq(d.db)) % nshards
 
 \* data
 POEnv(n) ==
